@@ -18,6 +18,8 @@ use vcommon::arg_or;
 use crate::faulty::FaultyStore;
 
 const KS: &str = "ks";
+const KS2: &str = "ks-two";
+const KS3: &str = "ks-late";
 
 struct Member {
     id: u8,
@@ -247,9 +249,9 @@ pub async fn record() {
 
 
 /// what a node's storage holds for `id`: (timestamp, tombstone, digest of the bytes)
-async fn held_full(m: &Member, id: u64) -> Option<(u64, bool, String)> {
-    let meta = m.inner.iter_metadata(KS).await.unwrap().find(|e| e.0 == id)?;
-    let bytes = m.inner.get(KS, id).await.unwrap().map(|d| d.data().to_vec()).unwrap_or_default();
+async fn held_full(m: &Member, ks: &str, id: u64) -> Option<(u64, bool, String)> {
+    let meta = m.inner.iter_metadata(ks).await.unwrap().find(|e| e.0 == id)?;
+    let bytes = m.inner.get(ks, id).await.unwrap().map(|d| d.data().to_vec()).unwrap_or_default();
     Some((meta.1.as_u64(), meta.2, format!("{}:{:x}", bytes.len(), bytes.iter().fold(0xcbf29ce484222325u64, |h, b| (h ^ *b as u64).wrapping_mul(0x100000001b3)))))
 }
 
@@ -265,7 +267,12 @@ pub async fn record_converge() {
         let members = start_cluster(&layout).await;
         let a = members[0].store.handle_with_keyspace(KS);
         let b = members[1].store.handle_with_keyspace(KS);
-        let mut ids: Vec<u64> = vec![];
+        // a second keyspace with the same document ids and other contents, and a third one that only comes into being
+        // in the last round: keyspaces are replicated independently of one another
+        let a2 = members[0].store.handle_with_keyspace(KS2);
+        let b2 = members[1].store.handle_with_keyspace(KS2);
+        let b3 = members[1].store.handle_with_keyspace(KS3);
+        let mut ids: Vec<(&str, u64)> = vec![];
         for r in 0..rounds {
             let base = 5000 + r * 100;
             let lv = Consistency::None;
@@ -283,18 +290,31 @@ pub async fn record_converge() {
             b.put(base + 9, b"soon gone".to_vec(), lv).await.expect("put");
             b.del(base + 9, lv).await.expect("del");
             b.put(base + 9, b"back again".to_vec(), lv).await.expect("put");
-            ids.extend((1..=9).map(|i| base + i));
+            ids.extend((1..=9).map(|i| (KS, base + i)));
+            let lv = Consistency::None;
+            b2.put_many(vec![(base + 1, b"other keyspace".to_vec()), (base + 4, b"four".to_vec()), (base + 6, b"six".to_vec())], lv).await.expect("put_many");
+            a2.del(base + 4, lv).await.expect("del");
+            a2.put(base + 5, b"only here".to_vec(), lv).await.expect("put");
+            b2.del_many(vec![base + 1, base + 9], lv).await.expect("del_many");
+            a2.put(base + 9, b"after its delete".to_vec(), lv).await.expect("put");
+            ids.extend([1u64, 4, 5, 6, 9].iter().map(|i| (KS2, base + i)));
+            if r + 1 == rounds {
+                b3.put(base + 1, b"late keyspace".to_vec(), lv).await.expect("put");
+                b3.put_many(vec![(base + 2, b"l2".to_vec()), (base + 3, b"l3".to_vec())], lv).await.expect("put_many");
+                b3.del(base + 2, lv).await.expect("del");
+                ids.extend([1u64, 2, 3].iter().map(|i| (KS3, base + i)));
+            }
             tokio::time::sleep(Duration::from_millis(300)).await;
         }
         // polled for up to 40 s so that a slow machine cannot turn this into a timing verdict
-        let mut finals: Vec<(u64, Vec<Option<(u64, bool, String)>>)> = vec![];
+        let mut finals: Vec<((&str, u64), Vec<Option<(u64, bool, String)>>)> = vec![];
         for _ in 0..80 {
             finals.clear();
             let mut all_equal = true;
             for id in &ids {
                 let mut row = vec![];
                 for m in &members {
-                    row.push(held_full(m, *id).await);
+                    row.push(held_full(m, id.0, id.1).await);
                 }
                 if row.iter().any(|x| *x != row[0]) || row[0].is_none() {
                     all_equal = false;
@@ -309,7 +329,7 @@ pub async fn record_converge() {
         for (id, row) in finals {
             docs += 1;
             let equal = row.iter().all(|x| *x == row[0]) && row[0].is_some();
-            writeln!(f, "{}", json!({"ev": "final", "layout": layout, "id": id, "all_equal": equal,
+            writeln!(f, "{}", json!({"ev": "final", "layout": layout, "ks": id.0, "id": id.1, "all_equal": equal,
                 "nodes": row.iter().map(|x| match x { Some((ts, tomb, dig)) => json!([ts.to_string(), tomb, dig]), None => json!([]) }).collect::<Vec<_>>()})).unwrap();
         }
         drop(members);
